@@ -275,3 +275,22 @@ for _name in ('paw', 'split'):
         bounds="per-graph store, shape %s: as first_and_second_neighbor" % _name)
     add("disjoint/shortest_path_rel/" + _name, _mk_shortest(SHAPES[_name], True, True), timeout=900, encodes=ENC,
         bounds="per-graph store, shape %s: as shortest_path_rel" % _name)
+
+
+# thorough: every labelled simple graph on 4 nodes (64 edge sets) for the two queries whose cost does not grow with the edge count,
+# and every shape with <= 4 edges for the relation-sensitive ones
+_named = {tuple(sorted(v)) for v in SHAPES.values()}
+for _name, _edges in ALL_SHAPES.items():
+    if tuple(sorted(_edges)) in _named:
+        continue
+    add("all_shapes/first_neighbor/" + _name, _mk_first(_edges), timeout=600, tiers=("thorough",), encodes=ENC,
+        bounds="shape %s: as first_neighbor" % (_edges,))
+    add("all_shapes/shortest_path_any/" + _name, _mk_shortest(_edges, False), timeout=600, tiers=("thorough",), encodes=ENC,
+        bounds="shape %s: as shortest_path_any" % (_edges,))
+    add("all_shapes/path_with_hops/" + _name, _mk_hops(_edges), timeout=900, tiers=("thorough",), encodes=ENC,
+        bounds="shape %s: as path_with_hops" % (_edges,))
+    if len(_edges) <= 4:
+        add("all_shapes/shortest_path_rel/" + _name, _mk_shortest(_edges, True), timeout=900, tiers=("thorough",), encodes=ENC,
+            bounds="shape %s: as shortest_path_rel" % (_edges,))
+        add("all_shapes/first_and_second_neighbor/" + _name, _mk_second(_edges), timeout=1200, tiers=("thorough",), encodes=ENC,
+            bounds="shape %s: as first_and_second_neighbor" % (_edges,))
